@@ -20,7 +20,7 @@ EXPLANATION = (
     "remove_enter_idle return a bool on every path, with both outcomes present; (5) SIB: the select and zmq loops (same state machine) agree on guards, helpers and results."
     ' Added after seed round 3: (7) a registry whose stored values are int parameters (file descriptors) is queried with `in` / `is not None`, never by the truthiness of the stored value.'
     " Round 4: the Twisted wrapper catches BaseException (the reactor swallows everything else); (8) self-made registry handles come from a counter, never from the registry's size; (9) the Twisted idle timer callback lowers its flag on every normal path."
-    " Round-4 triage: (10) an idle pass calls a callback only while it is still registered; (11) a dispatch batch (select, zmq) calls a watch only while it is still the registered one; (12) twisted's doRead returns nothing; (13) the zmq poll time-out is rounded up and an empty poller sleeps; (5, restated) select / zmq dispatch an alarm after a time-out or under an explicit due test, and do not require `not ready` (no starvation); (14) fdopen()/open() of a descriptor parameter passes closefd=False (the descriptor stays its caller's); (1, extended) the tornado wrapper catches BaseException like the twisted one (asyncio re-raises only SystemExit / KeyboardInterrupt itself); (15) every loop forgets an alarm - in the terms its remove_alarm() consults - before the callback runs; (16) a loop with a watch table plus per-watch objects registered with its host unregisters the old object when a descriptor is watched again. Round-5 triage: (1, sharpened) a handler in run() of select / zmq swallows unless its body ends in an unconditional raise (zmq's `if errno != EINTR: raise` around the whole iteration is reported); (3, extended) run() of select / zmq raises _did_something before the first iteration; (17) TrioEventLoop._cancel_scope forgets a never-started task before it touches the trio scope."
+    " Round-4 triage: (10) an idle pass calls a callback only while it is still registered; (11) a dispatch batch (select, zmq) calls a watch only while it is still the registered one; (12) twisted's doRead returns nothing; (13) the zmq poll time-out is rounded up and an empty poller sleeps; (5, restated) select / zmq dispatch an alarm after a time-out or under an explicit due test, and do not require `not ready` (no starvation); (14) fdopen()/open() of a descriptor parameter passes closefd=False (the descriptor stays its caller's); (1, extended) the tornado wrapper catches BaseException like the twisted one (asyncio re-raises only SystemExit / KeyboardInterrupt itself); (15) every loop forgets an alarm - in the terms its remove_alarm() consults - before the callback runs; (16) a loop with a watch table plus per-watch objects registered with its host unregisters the old object when a descriptor is watched again. Round-5 triage: (1, sharpened) a handler in run() of select / zmq swallows unless its body ends in an unconditional raise (zmq's `if errno != EINTR: raise` around the whole iteration is reported); (3, extended) run() of select / zmq raises _did_something before the first iteration; (17) TrioEventLoop._cancel_scope forgets a never-started task before it touches the trio scope; (18) the trio watch task re-checks its scope between the await and the callback, and a group consisting of ExitMainLoop only ends run() normally."
 )
 NOT_DECIDED = "Exactly-once, not-before-due and due-order of alarms, watch repetition, idle-before-quiescence under all interleavings - scheduler semantics under time."
 ASSUMPTIONS = ["The behaviour of the foreign scheduling APIs on a raising callable (log and continue) is taken from their documentation and recorded in the per-class table."]
@@ -753,8 +753,36 @@ def rule_trio_pending(ctx: Ctx) -> RuleResult:
     return rr
 
 
+def rule_trio_recheck(ctx: Ctx) -> RuleResult:
+    """The trio analogue of C13.11: a watch task sleeps in `await wait_readable(fd)`; when it is woken, other tasks of
+    the same scheduler batch may already have run and removed this watch - cancellation is only delivered at the
+    *next* checkpoint.  Between the await and the callback the task has to look at scope.cancel_called itself.
+    And: several callbacks of one batch may raise ExitMainLoop together; trio hands them over as one ExceptionGroup,
+    which has to end run() as silently as a single ExitMainLoop."""
+    p = ctx.p
+    rr = RuleResult("SNAP", "C13.18", "TrioEventLoop re-checks the cancel scope between wait_readable() and the watch callback; a group of ExitMainLoop only ends run() normally", floor=2)
+    fi = p.func(LOOPS["trio"] + "._watch_task")
+    cfg = cfg_of(fi)
+    cb = fi.params[-1]
+    awaits = nodes_where(cfg, lambda x: isinstance(x, ast.Await))
+    calls = nodes_where(cfg, lambda x: isinstance(x, ast.Call) and isinstance(x.func, ast.Name) and x.func.id == cb)
+    tests = [t for t in cfg.nodes if t.kind == "test" and "cancel_called" in ast.unparse(t.ast) and not isinstance(t.stmt, ast.While)]
+    if not awaits or not calls:
+        raise AnalysisError("TrioEventLoop._watch_task: await / callback call not found")
+    ok = bool(tests) and all(not any(c in cfg.reachable([a], avoid=tests, labels=("n", "T", "F")) for c in calls) for a in awaits)
+    rr.inst("_watch_task: re-check after the await", True, {"rechecks": [norm(t.ast, 40) for t in tests], "callback_only_after_recheck": ok})
+    if not ok:
+        rr.add(finding("SNAP", fi, calls[0].stmt, f"`{norm(calls[0].stmt, 30)}` follows `await ...wait_readable(fd)` without a test of scope.cancel_called in between: a watch removed by another callback of the same batch (two descriptors ready together) still runs once, because trio delivers the cancellation only at the next checkpoint", construct="watch callback without re-check after the await"))
+    h = p.func(LOOPS["trio"] + "._handle_main_loop_exception")
+    grp = [t for t in h.own_nodes() if isinstance(t, ast.If) and "all(" in ast.unparse(t.test) and "ExitMainLoop" in ast.unparse(t.test) and any(isinstance(x, ast.Return) for x in t.body)]
+    rr.inst("_handle_main_loop_exception: group of ExitMainLoop", True, {"tests": [norm(t.test, 90) for t in grp]})
+    if not grp:
+        rr.add(finding("SNAP", h, h.node, "_handle_main_loop_exception returns only for a single ExitMainLoop: when two callbacks of one batch raise it, trio's ExceptionGroup of both is re-raised from run() instead of ending it", construct="group of ExitMainLoop not absorbed"))
+    return rr
+
+
 def run(ctx: Ctx):
-    return [rule_wrap(ctx), rule_snap(ctx), rule_idle_arming(ctx), rule_remove_returns(ctx), rule_select_zmq(ctx), rule_trio_checkpoint(ctx), rule_presence(ctx), rule_handle_unique(ctx), rule_twisted_idle_flag(ctx), rule_idle_removed(ctx), rule_batch_dispatch(ctx), rule_doread_result(ctx), rule_zmq_wait(ctx), rule_descriptor_ownership(ctx), rule_fired_alarm_forgotten(ctx), rule_rewatch_replaces(ctx), rule_trio_pending(ctx)]
+    return [rule_wrap(ctx), rule_snap(ctx), rule_idle_arming(ctx), rule_remove_returns(ctx), rule_select_zmq(ctx), rule_trio_checkpoint(ctx), rule_presence(ctx), rule_handle_unique(ctx), rule_twisted_idle_flag(ctx), rule_idle_removed(ctx), rule_batch_dispatch(ctx), rule_doread_result(ctx), rule_zmq_wait(ctx), rule_descriptor_ownership(ctx), rule_fired_alarm_forgotten(ctx), rule_rewatch_replaces(ctx), rule_trio_pending(ctx), rule_trio_recheck(ctx)]
 
 
 from ..mutants import Mut  # noqa: E402
@@ -762,6 +790,8 @@ from ..mutants import Mut  # noqa: E402
 _S = "urwid/event_loop/select_loop.py"
 _A = "urwid/event_loop/asyncio_loop.py"
 MUTANTS = [
+    Mut("trio-watch-no-recheck-after-await", "urwid/event_loop/trio_loop.py", "TrioEventLoop._watch_task", "                if scope.cancel_called:\n                    # removed by another callback that ran since the descriptor became readable\n                    break\n", "", "SNAP|event_loop.trio_loop.TrioEventLoop._watch_task"),
+    Mut("trio-exit-group-reraised", "urwid/event_loop/trio_loop.py", "TrioEventLoop._handle_main_loop_exception", "        if isinstance(exc, BaseExceptionGroup) and len(exc.exceptions) > 1 and all(isinstance(e, ExitMainLoop) for e in exc.exceptions):\n            # several callbacks of one batch asked to exit\n            return\n", "", "SNAP|event_loop.trio_loop.TrioEventLoop._handle_main_loop_exception"),
     Mut("trio-cancel-pending-task-through-scope", "urwid/event_loop/trio_loop.py", "TrioEventLoop._cancel_scope", "        for index, (_task, pending_scope, _args) in enumerate(self._pending_tasks):\n            if pending_scope is scope:\n                # not started yet (no nursery): there is nothing to cancel, just forget the task\n                del self._pending_tasks[index]\n                return True\n", "", "PASS|event_loop.trio_loop.TrioEventLoop._cancel_scope"),
     Mut("zmq-run-does-not-arm-idle", "urwid/event_loop/zmq_loop.py", "ZMQEventLoop.run", "            self._did_something = True\n", "", "PASS|event_loop.zmq_loop.ZMQEventLoop.run"),
     Mut("zmq-run-swallows-callback-eintr", "urwid/event_loop/zmq_loop.py", "ZMQEventLoop.run", "            while True:\n                self._loop()\n", "            while True:\n                try:\n                    self._loop()\n                except zmq.error.ZMQError as exc:\n                    if exc.errno != errno.EINTR:\n                        raise\n", "WRAP|event_loop.zmq_loop.ZMQEventLoop.run"),
